@@ -223,7 +223,7 @@ static void timeseries_histogram_fill(struct cmi_dataset_histogram *hp,
     /* Distribute x-values to bins */
     for (uint64_t ui = 0u; ui < n - 1u; ui++) {
         /* In what bin does this x-value belong? */
-        uint16_t bin;
+        unsigned bin;
         const double x = xa[ui];
         if (x < hp->low_lim) {
             bin = 0u;
@@ -231,8 +231,12 @@ static void timeseries_histogram_fill(struct cmi_dataset_histogram *hp,
         else if (x > hp->high_lim) {
             bin = hp->num_bins - 1u;
         }
+        else if (hp->binsize > 0.0) {
+            bin = 1u + (unsigned)((x - hp->low_lim) / hp->binsize);
+        }
         else {
-            bin = 1u + (uint16_t)((x - hp->low_lim) / hp->binsize);
+            /* Zero range (all samples equal), everything is in the first bin */
+            bin = 1u;
         }
 
         /* Add it to that bin and note the high-water mark */
@@ -271,9 +275,10 @@ void cmb_timeseries_histogram_print(const struct cmb_timeseries *tsp,
         high_lim = dsp->max;
     }
 
-    const unsigned datarange = (unsigned)ceil(high_lim - low_lim);
-    if (datarange < num_bins) {
-        num_bins = (datarange > 0u) ? datarange : 1u;
+    /* Compare as doubles, the range may exceed what an unsigned can hold */
+    const double datarange = ceil(high_lim - low_lim);
+    if (datarange < (double)num_bins) {
+        num_bins = (datarange > 0.0) ? (uint16_t)datarange : 1u;
     }
 
     struct cmi_dataset_histogram *hp = NULL;
